@@ -288,6 +288,25 @@ func planScreen(rng *rand.Rand, nops int, w, h int, mix string, rich bool, hasCa
 			add(sop{Op: "Show"})
 			add(sop{Op: "LockRegion", X: x, Y: y, W: rw, H: rh, B: false})
 			add(sop{Op: "Show"})
+		case k < 45 && rng.Intn(40) == 0:
+			// combining marks that change while everything else stays: (a) a cell whose primary rune has no width (shown as a
+			// blank under the marks) gets other marks, as many as before; (b) a Fill with the rune and style of a cell takes
+			// its marks away - either way the cell is repainted by the next frame
+			x, y := rng.Intn(cw), rng.Intn(ch)
+			st := tcx.RandStyle(rng, false, true)
+			if rng.Intn(2) == 0 {
+				r0 := []rune{0x200b, 0x7, 'a'}[rng.Intn(3)]
+				add(sop{Op: "SetContent", X: x, Y: y, R: r0, Comb: []rune{0x301}, St: st})
+				add(sop{Op: "Show"})
+				add(sop{Op: "SetContent", X: x, Y: y, R: r0, Comb: []rune{0x308}, St: st})
+				add(sop{Op: "Show"})
+			} else {
+				add(sop{Op: "Fill", R: 'e', St: st})
+				add(sop{Op: "SetContent", X: x, Y: y, R: 'e', Comb: []rune{0x301, 0x302}[:1+rng.Intn(2)], St: st})
+				add(sop{Op: "Show"})
+				add(sop{Op: "Fill", R: 'e', St: st})
+				add(sop{Op: "Show"})
+			}
 		case k < 45 && cw >= 5 && rng.Intn(40) == 0:
 			// bottom line: a wide rune, shown; another wide rune one column to its left (the first stays stored but
 			// hidden); then the corner cell changes - whoever owns column w-2 must be found by walking the line
